@@ -218,6 +218,58 @@ template <class NS> static void resolves(int n, int maxm, const vector<double> &
     }
 }
 
+
+// ---- part A3: instance, then new desired positions + addConstraint on the live solver, then re-solves ---------------------
+// Values are decimal fractions (0.1, 0.2, 0.3): sums and differences carry rounding noise of the order 1e-17, so slacks that are
+// "exactly zero" on paper come out as +-epsilon -- the window in which comparisons against 0 and against -1e-10 disagree.
+template <class NS> static void addresolves(int n, int m0max, bool fullD0) {
+    vector<double> dvals = {0, 0.1, 0.3, 50}, gaps = {0.1, 0.2}, newd = {-10, 50};
+    vector<SepC> alphabet; for (int l = 0; l < n; l++) for (int r = 0; r < n; r++) if (l != r) for (double g : gaps) alphabet.push_back({l, r, g, false});
+    int A = alphabet.size();
+    ctx.phase(mcx::fmt("add+re-solves %s n=%d m0<=%d decimal values: solve; desired:=d1; addConstraint(c); solve; then each desired[v]:=-10|50 in turn, re-solve (d0 %s)", NS::name(), n, m0max, fullD0 ? "all" : "zero"));
+    for (int m = 0; m <= m0max && !ctx.stopped(); m++) {
+        vector<int> idx(m, 0);
+        do {
+            vector<SepC> cs0; for (int i : idx) cs0.push_back(alphabet[i]);
+            if (!oracle::feasible_bf(n, cs0)) continue;
+            for (int add = 0; add < A; add++) {
+                vector<SepC> cs1 = cs0; cs1.push_back(alphabet[add]); if (!oracle::feasible_bf(n, cs1)) continue;
+                vector<int> d0sel(n, 0);
+                do { vector<int> d1sel(n, 0);
+                do {
+                    if (!ctx.next()) continue;
+                    Inst I; I.n = n; I.sc.assign(n, 1.0); I.w.assign(n, 1.0); I.cs = cs0; I.d.assign(n, 0); for (int i = 0; i < n; i++) I.d[i] = dvals[d0sel[i]];
+                    ctx.count("states"); ctx.sample(inst_str(I), 1);
+                    typename NS::Vs vs; typename NS::Cs vc; for (int i = 0; i < n; i++) vs.push_back(new typename NS::V(i, I.d[i], 1.0, 1.0)); for (auto &c : I.cs) vc.push_back(new typename NS::C(vs[c.l], vs[c.r], c.gap, false));
+                    string hist = string(NS::name()) + "::IncSolver " + inst_str(I) + " ops: solve"; bool nontriv = false; vector<SepC> cs = cs0; vector<double> d = I.d;
+                    auto judge1 = [&]() {
+                        ctx.count("transitions"); bool any = false; for (auto c : vc) any |= c->unsatisfiable;
+                        vector<double> x; for (auto v : vs) x.push_back(v->finalPosition);
+                        if (P1) { for (size_t q = 0; q < vc.size(); q++) if (!vc[q]->unsatisfiable) { double sl = x[cs[q].r] - x[cs[q].l] - cs[q].gap; if (sl < -1e-6) { ctx.violation("unsatisfied_constraint", {}, hist, cstr(cs[q]) + " slack=" + mcx::g(sl)); break; } }
+                            if (any) ctx.violation("flag_on_feasible", {}, hist); for (auto c : vc) if (c->active) nontriv = true;
+                            for (double v : x) if (!(v == v) || std::isinf(v)) { ctx.violation("nonfinite", {}, hist); break; } }
+                        else if (!any) { vector<double> best; int nact = 0; if (oracle::qp_active_set(n, d, I.w, I.sc, cs, best, &nact)) { if (nact > 0) nontriv = true; double err = 0; for (int i = 0; i < n; i++) err = max(err, fabs(best[i] - x[i])); ctx.count("optimality_checks");
+                            if (!(err <= 1e-5 * 50)) ctx.violation("not_optimal", {}, hist, "x=" + xs(x) + " optimum=" + xs(best) + " err=" + mcx::g(err)); } }
+                    };
+                    try {
+                        typename NS::Inc s(vs, vc);
+                        s.solve(); judge1();
+                        for (int i = 0; i < n; i++) { d[i] = dvals[d1sel[i]]; vs[i]->desiredPosition = d[i]; } hist += " desired:=[" + xs(d) + "]";
+                        { const SepC &c = alphabet[add]; auto *nc = new typename NS::C(vs[c.l], vs[c.r], c.gap, false); vc.push_back(nc); cs.push_back(c); s.addConstraint(nc); hist += " add(" + cstr(c) + ") solve"; }
+                        s.solve(); judge1();
+                        for (int step = 0; step < 2 * n; step++) { int v = step / 2; double nv = newd[step % 2]; d[v] = nv; vs[v]->desiredPosition = nv; hist += mcx::fmt(" desired[%d]:=%g solve", v, nv); s.solve(); judge1(); }
+                    } catch (vpsc::CriticalFailure &f) { ctx.library_abort(f.what(), hist); if (P1) ctx.violation("inc_throw", {}, hist, f.what()); }
+                    catch (...) { if (P1) ctx.violation("inc_throw", {}, hist, "exception"); }
+                    if (nontriv) ctx.count("nontrivial");
+                    for (auto c : vc) delete c; for (auto v : vs) delete v;
+                    ctx.done_case();
+                } while (mcx::odo_next(d1sel, (int)dvals.size()));
+                } while (fullD0 && mcx::odo_next(d0sel, (int)dvals.size()));
+            }
+        } while (!ctx.stopped() && mcx::multiset_next(idx, A));
+    }
+}
+
 // ---- part B: histories on one live IncSolver --------------------------------------
 struct Op { int kind; int a; double v; SepC c; };   // 0 add c, 1 desired[a]:=v, 2 solve, 3 satisfy
 static string op_str(const Op &p) {
@@ -303,6 +355,7 @@ int main(int argc, char **argv) {
     instances(2, 3, true, 2, false);
     if (!P1) { instances(2, 3, true, 0, true); instances(3, 2, true, 0, true); instances(3, 2, false, 1, true); }
     resolves<NSvpsc>(3, 3, {-1, 0, 2}, 1); resolves<NSvpsc>(4, 4, {1}, 2); resolves<NSavoid>(3, 3, {0, 2}, 2);
+    addresolves<NSvpsc>(3, 2, false); addresolves<NSavoid>(3, 2, false);
     histories<NSvpsc>(3, 3, 0, false);
     histories<NSvpsc>(3, 4, 0, false);
     histories<NSvpsc>(3, 4, 1, false);
@@ -310,6 +363,7 @@ int main(int argc, char **argv) {
     histories<NSvpsc>(3, 5, 1, false);
     histories<NSvpsc>(3, 4, 2, true);
     if (T) {
+        addresolves<NSvpsc>(3, 2, true); addresolves<NSvpsc>(3, 3, false);
         resolves<NSvpsc>(4, 4, {0, 2}, 2); resolves<NSavoid>(4, 4, {1}, 2); resolves<NSvpsc>(4, 5, {1}, 0);
         instances(3, 4, true, 0, false);
         instances(4, 3, true, 0, false);
